@@ -125,3 +125,138 @@ package document
 //@ requires t != nil
 //@ modifies nothing
 //@ ensures err == nil <==> (0 <= row && row < len(t.Rows) && 0 <= col && col < len(t.Rows[row].Cells))
+
+// ---------------------------------------------------------------- row formatters
+
+//@ func (*Table).SetRowHeightRange
+//@ props C09
+//@ requires t != nil && rowPropsOwn(t)
+//@ modifies TableRow.Properties, TableRowProperties.TableRowH
+//@ ensures err == nil <==> (0 <= startRow && startRow <= endRow && endRow < len(t.Rows) && config != nil)
+//@ ensures err != nil ==> unchangedHeap()
+//@ ensures err == nil ==> rowPropsOwn(t)
+//@ ensures err == nil ==> forall r int :: startRow <= r && r <= endRow ==> t.Rows[r].Properties != nil && (old(t.Rows[r].Properties) != nil ==> t.Rows[r].Properties == old(t.Rows[r].Properties)) && t.Rows[r].Properties.TableRowH != nil && t.Rows[r].Properties.TableRowH.Val == itoa(config.Height * 20) && t.Rows[r].Properties.TableRowH.HRule == string(config.Rule)
+//@ ensures err == nil ==> forall r int :: 0 <= r && r < len(t.Rows) && (r < startRow || r > endRow) ==> t.Rows[r].Properties == old(t.Rows[r].Properties) && (t.Rows[r].Properties != nil ==> t.Rows[r].Properties.TableRowH == old(t.Rows[r].Properties.TableRowH))
+//@ ensures err == nil && old(rowsOwn(t)) ==> rowsOwn(t)
+//@ ensures err == nil && old(cellPropsOwn(t)) ==> cellPropsOwn(t)
+//@ ensures err == nil && old(cellParasOwn(t)) ==> cellParasOwn(t)
+//@ ensures err == nil && old(paraRunsOwn(t)) ==> paraRunsOwn(t)
+//@ loop 1
+//@   invariant startRow <= i && i <= endRow + 1
+//@   invariant config == nil ==> unchangedHeap() && i == startRow
+//@   invariant rowPropsOwn(t)
+//@   invariant forall r int :: startRow <= r && r < i ==> t.Rows[r].Properties != nil && (old(t.Rows[r].Properties) != nil ==> t.Rows[r].Properties == old(t.Rows[r].Properties)) && t.Rows[r].Properties.TableRowH != nil && t.Rows[r].Properties.TableRowH.Val == itoa(config.Height * 20) && t.Rows[r].Properties.TableRowH.HRule == string(config.Rule)
+//@   invariant forall r int :: 0 <= r && r < len(t.Rows) && (r < startRow || r >= i) ==> t.Rows[r].Properties == old(t.Rows[r].Properties)
+//@   invariant forall r int :: 0 <= r && r < len(t.Rows) && (r < startRow || r >= i) && t.Rows[r].Properties != nil ==> t.Rows[r].Properties.TableRowH == old(t.Rows[r].Properties.TableRowH)
+//@   decreases endRow + 1 - i
+
+//@ func (*Table).SetRowKeepWithNext
+//@ props C09
+//@ requires t != nil
+//@ modifies nothing
+//@ ensures err == nil <==> (0 <= rowIndex && rowIndex < len(t.Rows))
+
+//@ func (*TableRowProperties).SetCantSplit
+//@ props C09
+//@ requires trp != nil
+//@ modifies TableRowProperties.CantSplit
+//@ ensures cantSplit ==> fresh(trp.CantSplit) && trp.CantSplit.Val == "1"
+//@ ensures !cantSplit ==> trp.CantSplit == nil
+//@ ensures forall p *TableRowProperties :: p != trp ==> p.CantSplit == old(p.CantSplit)
+
+//@ func (*TableRowProperties).SetTblHeader
+//@ props C09
+//@ requires trp != nil
+//@ modifies TableRowProperties.TblHeader
+//@ ensures isHeader ==> fresh(trp.TblHeader) && trp.TblHeader.Val == "1"
+//@ ensures !isHeader ==> trp.TblHeader == nil
+//@ ensures forall p *TableRowProperties :: p != trp ==> p.TblHeader == old(p.TblHeader)
+
+// ---------------------------------------------------------------- table formatters (write t.Properties only; rows, cells, grid untouched by the frame)
+
+//@ func (*Table).SetTableBorders
+//@ props C09
+//@ requires t != nil
+//@ modifies Table.Properties, TableProperties.TableBorders
+//@ ensures err == nil <==> config != nil
+//@ ensures err != nil ==> unchangedHeap()
+//@ ensures err == nil ==> t.Properties != nil && (old(t.Properties) != nil ==> t.Properties == old(t.Properties)) && (old(t.Properties) == nil ==> fresh(t.Properties))
+//@ ensures err == nil ==> fresh(t.Properties.TableBorders) && ((t.Properties.TableBorders.Top != nil) == (config.Top != nil)) && ((t.Properties.TableBorders.Left != nil) == (config.Left != nil)) && ((t.Properties.TableBorders.Bottom != nil) == (config.Bottom != nil)) && ((t.Properties.TableBorders.Right != nil) == (config.Right != nil)) && ((t.Properties.TableBorders.InsideH != nil) == (config.InsideH != nil)) && ((t.Properties.TableBorders.InsideV != nil) == (config.InsideV != nil))
+//@ ensures err == nil && config.Top != nil ==> fresh(t.Properties.TableBorders.Top) && t.Properties.TableBorders.Top.Val == string(config.Top.Style) && t.Properties.TableBorders.Top.Sz == itoa(config.Top.Width) && t.Properties.TableBorders.Top.Space == itoa(config.Top.Space) && t.Properties.TableBorders.Top.Color == config.Top.Color
+//@ ensures err == nil && config.Left != nil ==> t.Properties.TableBorders.Left.Val == string(config.Left.Style)
+//@ ensures err == nil && config.Bottom != nil ==> t.Properties.TableBorders.Bottom.Val == string(config.Bottom.Style)
+//@ ensures err == nil && config.Right != nil ==> t.Properties.TableBorders.Right.Val == string(config.Right.Style)
+//@ ensures err == nil && config.InsideH != nil ==> t.Properties.TableBorders.InsideH.Val == string(config.InsideH.Style)
+//@ ensures err == nil && config.InsideV != nil ==> t.Properties.TableBorders.InsideV.Val == string(config.InsideV.Style)
+//@ ensures forall u *Table :: u != t && allocated(u) ==> u.Properties == old(u.Properties)
+//@ ensures old(rowsOwn(t)) ==> rowsOwn(t)
+//@ ensures old(cellPropsOwn(t)) ==> cellPropsOwn(t)
+//@ ensures old(rowPropsOwn(t)) ==> rowPropsOwn(t)
+//@ ensures old(cellParasOwn(t)) ==> cellParasOwn(t)
+//@ ensures old(paraRunsOwn(t)) ==> paraRunsOwn(t)
+
+//@ func (*Table).RemoveTableBorders
+//@ props C09
+//@ requires t != nil
+//@ modifies Table.Properties, TableProperties.TableBorders
+//@ ensures err == nil
+//@ ensures t.Properties != nil && (old(t.Properties) != nil ==> t.Properties == old(t.Properties)) && (old(t.Properties) == nil ==> fresh(t.Properties))
+//@ ensures fresh(t.Properties.TableBorders) && t.Properties.TableBorders.Top != nil && t.Properties.TableBorders.Top.Val == "none" && t.Properties.TableBorders.Left != nil && t.Properties.TableBorders.Left.Val == "none" && t.Properties.TableBorders.Bottom != nil && t.Properties.TableBorders.Bottom.Val == "none" && t.Properties.TableBorders.Right != nil && t.Properties.TableBorders.Right.Val == "none" && t.Properties.TableBorders.InsideH != nil && t.Properties.TableBorders.InsideH.Val == "none" && t.Properties.TableBorders.InsideV != nil && t.Properties.TableBorders.InsideV.Val == "none"
+//@ ensures forall u *Table :: u != t && allocated(u) ==> u.Properties == old(u.Properties)
+//@ ensures old(rowsOwn(t)) ==> rowsOwn(t)
+//@ ensures old(cellPropsOwn(t)) ==> cellPropsOwn(t)
+//@ ensures old(rowPropsOwn(t)) ==> rowPropsOwn(t)
+//@ ensures old(cellParasOwn(t)) ==> cellParasOwn(t)
+//@ ensures old(paraRunsOwn(t)) ==> paraRunsOwn(t)
+
+//@ func (*Table).SetTableShading
+//@ props C09
+//@ requires t != nil
+//@ modifies Table.Properties, TableProperties.Shd
+//@ ensures err == nil <==> config != nil
+//@ ensures err != nil ==> unchangedHeap()
+//@ ensures err == nil ==> t.Properties != nil && (old(t.Properties) != nil ==> t.Properties == old(t.Properties)) && (old(t.Properties) == nil ==> fresh(t.Properties))
+//@ ensures err == nil ==> fresh(t.Properties.Shd) && t.Properties.Shd.Val == string(config.Pattern) && t.Properties.Shd.Color == config.ForegroundColor && t.Properties.Shd.Fill == config.BackgroundColor
+//@ ensures forall u *Table :: u != t && allocated(u) ==> u.Properties == old(u.Properties)
+//@ ensures old(rowsOwn(t)) ==> rowsOwn(t)
+//@ ensures old(cellPropsOwn(t)) ==> cellPropsOwn(t)
+//@ ensures old(rowPropsOwn(t)) ==> rowPropsOwn(t)
+//@ ensures old(cellParasOwn(t)) ==> cellParasOwn(t)
+//@ ensures old(paraRunsOwn(t)) ==> paraRunsOwn(t)
+
+//@ func (*Table).SetTableLayout
+//@ props C09
+//@ requires t != nil
+//@ modifies Table.Properties, TableProperties.TableJc
+//@ ensures err == nil <==> config != nil
+//@ ensures err != nil ==> unchangedHeap()
+//@ ensures err == nil ==> t.Properties != nil && (old(t.Properties) != nil ==> t.Properties == old(t.Properties)) && (old(t.Properties) == nil ==> fresh(t.Properties))
+//@ ensures err == nil && string(config.Alignment) != "" ==> fresh(t.Properties.TableJc) && t.Properties.TableJc.Val == string(config.Alignment)
+//@ ensures err == nil && string(config.Alignment) == "" ==> t.Properties.TableJc == old(ite(t.Properties == nil, nil, t.Properties.TableJc))
+//@ ensures forall u *Table :: u != t && allocated(u) ==> u.Properties == old(u.Properties)
+//@ ensures old(rowsOwn(t)) ==> rowsOwn(t)
+//@ ensures old(cellPropsOwn(t)) ==> cellPropsOwn(t)
+//@ ensures old(rowPropsOwn(t)) ==> rowPropsOwn(t)
+//@ ensures old(cellParasOwn(t)) ==> cellParasOwn(t)
+//@ ensures old(paraRunsOwn(t)) ==> paraRunsOwn(t)
+
+//@ func (*Table).SetTableAlignment
+//@ props C09
+//@ requires t != nil
+//@ modifies Table.Properties, TableProperties.TableJc
+//@ ensures err == nil
+//@ ensures t.Properties != nil && (old(t.Properties) != nil ==> t.Properties == old(t.Properties)) && (old(t.Properties) == nil ==> fresh(t.Properties))
+//@ ensures string(alignment) != "" ==> fresh(t.Properties.TableJc) && t.Properties.TableJc.Val == string(alignment)
+//@ ensures string(alignment) == "" ==> t.Properties.TableJc == old(ite(t.Properties == nil, nil, t.Properties.TableJc))
+//@ ensures forall u *Table :: u != t && allocated(u) ==> u.Properties == old(u.Properties)
+//@ ensures old(rowsOwn(t)) ==> rowsOwn(t)
+//@ ensures old(cellPropsOwn(t)) ==> cellPropsOwn(t)
+//@ ensures old(rowPropsOwn(t)) ==> rowPropsOwn(t)
+//@ ensures old(cellParasOwn(t)) ==> cellParasOwn(t)
+//@ ensures old(paraRunsOwn(t)) ==> paraRunsOwn(t)
+
+//@ func (*Table).SetTablePageBreak
+//@ props C09
+//@ requires t != nil
+//@ modifies nothing
+//@ ensures err == nil <==> config != nil
